@@ -65,8 +65,9 @@ def pvStep (sorted : Sorted) (st : PV) (v : Variant) : Option PV :=
         | e => (false, e)
       match num with
       | .intLit n =>
-        if (n : Int) ≤ i64Max then
-          let i : Int := if negate then -(n : Int) else n
+        -- `base10_parse::<i128>()`, negate, `i64::try_from`
+        let i : Int := if negate then -(n : Int) else n
+        if i64Min ≤ i ∧ i ≤ i64Max then
           let errs := if sorted.value ∧ ¬ st.values.isEmpty ∧ i < st.last then errs ++ [.notValueSorted] else errs
           let (vals, dup) := assocInsert i (v.ident, name) st.values
           let errs := if dup then errs ++ [.duplicateValue] else errs
